@@ -85,6 +85,11 @@ func (o *Once) Do(f func()) {
 // Pool is an explicit list. Get returns, by default, the most recently Put
 // object (or New()); under an execution the explorer chooses which stored
 // object - or a fresh one - is returned, which is everything sync.Pool may do.
+// NoPoolChoice makes Pool.Get deterministic (most recently Put object) even
+// under an execution; harnesses whose property does not involve the pools set
+// it so that pool choices do not multiply their exploration.
+var NoPoolChoice bool
+
 type Pool struct {
 	New   func() any
 	mu    sync.Mutex
@@ -102,7 +107,7 @@ func (p *Pool) Get() any {
 		alts++
 	}
 	ch := 0
-	if alts > 1 {
+	if alts > 1 && !NoPoolChoice {
 		ch = sched.Choose("pool.get", alts)
 	}
 	if ch < n {
